@@ -1102,7 +1102,7 @@ def rule_idempotent(rep, repo, tier):
   thrs = (None, F(1, 2), F(4, 5), F(1), 0)
   if tier == "thorough":
     thrs += (F(1, 8), F(9, 10), F(3, 4))
-  for alpha, thr in itertools.product((None, F(1), F(2)), thrs):
+  for alpha, thr in itertools.product((None, F(1), F(2), F(1, 4)), thrs):
     cfgs.append(("ternary", dict(alpha=alpha, threshold=thr)))
   for alpha, u in itertools.product((None, F(1), F(2)), (False, True)):
     cfgs.append(("binary", dict(alpha=alpha, use_01=u)))
